@@ -8,6 +8,7 @@ import (
 
 	"github.com/gofiber/fiber/v3"
 	fsess "github.com/gofiber/fiber/v3/middleware/session"
+	"github.com/valyala/fasthttp"
 
 	"verifharness/internal/drive"
 	"verifharness/internal/ev"
@@ -56,7 +57,9 @@ func runRace(e *ev.Env) {
 			},
 		}
 		if cfg.VStore {
-			conf.Storage = vstore.New()
+			vs := vstore.New()
+			vs.KeepKeyRef = r.Bool()
+			conf.Storage = vs
 		}
 		mw, store := fsess.NewWithStore(conf)
 		parent := &hist{e: e, c: c, cfg: cfg, store: store, scripts: map[string]*script{}, sigs: map[string]bool{}}
@@ -73,6 +76,11 @@ func runRace(e *ev.Env) {
 		app.Get("/st", run)
 		parent.app = app
 		parent.d = drive.NewDirect(app)
+		// like the server: a pool of RequestCtx objects shared by all connections
+		parent.pool = make(chan *fasthttp.RequestCtx, 8)
+		for i := 0; i < cap(parent.pool); i++ {
+			parent.pool <- &fasthttp.RequestCtx{}
+		}
 		defer parent.close()
 
 		var wg sync.WaitGroup
